@@ -19,12 +19,12 @@ func init() {
 		Level: "exploration",
 		Rule: "every list size n in 0..N (quick N=600, thorough N=2100) plus sizes around 4096/65536 (and 3 random sizes <=200000 in thorough) x rounds in {0,1,2,3,9,10,89,90,91,255} x seeds; " +
 			"lists of distinct non-identity tokens; whole-list UnshuffleList/ShuffleList compared element-wise with the per-index spec function, PermuteIndex/UnpermuteIndex compared per index " +
-			"(all indices for n<=300, sampled above). A case is one (n, rounds, seed); non-trivial when n>=2 and rounds>=1; distinct by (n, rounds, seed)",
+			"(all indices for n<=300, sampled above); up to 12 retained cases per batch are shuffled and unshuffled again on 8 goroutines at the same time, each on its own copy. A case is one (n, rounds, seed); non-trivial when n>=2 and rounds>=1; distinct by (n, rounds, seed)",
 		Assumptions: []string{"crypto/sha256 correct", "the reference compute_shuffled_index below is a faithful transcription of the phase0 spec function (its bijectivity is asserted on every case)",
 			"per-index functions are only called with index < list size (list size >= 1), their documented domain"},
 		Batches:  func(tier string) int { return 16 },
 		Run:      runC06,
-		Required: []string{"pivot_eq_0", "pivot_eq_n_minus_1", "pivot_mod256_eq_0", "pivot_mod256_eq_255", "size_multiple_of_256", "size_0", "size_1", "elements_compared"},
+		Required: []string{"pivot_eq_0", "pivot_eq_n_minus_1", "pivot_mod256_eq_0", "pivot_mod256_eq_255", "size_multiple_of_256", "size_0", "size_1", "elements_compared", "overlapping_whole_list_calls"},
 	})
 }
 
@@ -127,6 +127,43 @@ func runC06(b *fw.B) {
 			}
 		}
 	}
+	type c06kept struct {
+		n      uint64
+		rounds int
+		seed   [32]byte
+		in     []common.ValidatorIndex
+		perm   []uint64
+	}
+	var kept []c06kept
+	defer func() {
+		// The same whole-list calls again, overlapping in time: 8 goroutines, each on lists of its own. The functions are pure, so every
+		// call must still give the spec's permutation (anything the library keeps between or during calls would be shared here).
+		if len(kept) == 0 {
+			return
+		}
+		b.Case("shuffle-overlapped", fmt.Sprintf("%d retained cases on 8 goroutines", len(kept)))
+		msgs := overlapped(8, 3*len(kept), func(w, i int) string {
+			k := kept[(w+i)%len(kept)]
+			var seedRoot common.Root = k.seed
+			un := append([]common.ValidatorIndex{}, k.in...)
+			common.UnshuffleList(uint8(k.rounds), un, seedRoot)
+			sh := append([]common.ValidatorIndex{}, k.in...)
+			common.ShuffleList(uint8(k.rounds), sh, seedRoot)
+			for j := uint64(0); j < k.n; j++ {
+				if un[j] != k.in[k.perm[j]] {
+					return fmt.Sprintf("n=%d rounds=%d seed=%x: UnshuffleList(list)[%d] is not list[compute_shuffled_index(%d)] when other lists are shuffled at the same time", k.n, k.rounds, k.seed[:8], j, j)
+				}
+				if sh[k.perm[j]] != k.in[j] {
+					return fmt.Sprintf("n=%d rounds=%d seed=%x: ShuffleList(list)[compute_shuffled_index(%d)] is not list[%d] when other lists are shuffled at the same time", k.n, k.rounds, k.seed[:8], j, j)
+				}
+			}
+			return ""
+		})
+		b.Count("overlapping_whole_list_calls", int64(8*3*len(kept)*2))
+		for _, m := range msgs {
+			b.Violate("overlapping-calls/mismatch", m, nil)
+		}
+	}()
 	for _, cs := range cases {
 		{
 			{
@@ -171,6 +208,9 @@ func runC06(b *fw.B) {
 					b.Note("oracle not bijective for n=%d rounds=%d (harness bug)", n, rounds)
 					b.Inc("oracle_bug")
 					continue
+				}
+				if n >= 64 && n <= 5000 && rounds >= 9 && rounds <= 91 && len(kept) < 12 && (len(kept) == 0 || kept[len(kept)-1].n != n) {
+					kept = append(kept, c06kept{n, rounds, seed, in, perm})
 				}
 				var seedRoot common.Root = seed
 				// UnshuffleList: out[i] == in[csi(i)]
